@@ -105,7 +105,7 @@ pub fn gen_codec(r: &mut Rng) -> Vec<Tree> {
         // encode here as well to derive decode inputs
         if let Some(bytes) = encode_tree_here(&p, protocol, seq, &key) {
             let dkey: Vec<u8> = if r.chance(5, 6) { key.clone() } else { r.bytes(32) };
-            let dprot = if r.chance(7, 8) { protocol } else { protocol ^ 1 };
+            let dprot = if r.chance(3, 4) { protocol } else { protocol ^ *r.pick(&[1u64, 1 << 8, 1 << 55, 1 << 56, 1 << 63, 0xff << 56]) };
             ops.push(l(vec![n(120u8), b(&bytes), n(dprot), optb(Some(&dkey))]));
             ops.push(l(vec![n(127u8), n(0u8), b(&bytes), n(protocol), b(&key)]));
             if r.chance(1, 2) {
@@ -231,6 +231,28 @@ pub fn gen_replay(r: &mut Rng) -> Vec<Tree> {
     ops
 }
 
+/// An invented datagram with the exact shape of a sealed packet: type, sequence bytes as announced by the prefix,
+/// a body of the length that packet type has (empty for denied and disconnect), 16 bytes where the tag goes.
+fn gen_shaped_datagram(r: &mut Rng) -> Vec<u8> {
+    let ty = r.range(1, 6) as u8;
+    let sl = *r.pick(&[0u8, 1, 1, 2, 8]);
+    let mut m = vec![ty | (sl << 4)];
+    m.extend(r.bytes(sl as usize));
+    let body = match ty {
+        1 | 6 => 0,
+        2 | 3 => 308,
+        4 => 8,
+        _ => *r.pick(&[0usize, 1, 100, 1300]),
+    };
+    m.extend(r.bytes(body));
+    if r.chance(1, 2) {
+        m.extend(vec![0u8; 16]);
+    } else {
+        m.extend(r.bytes(16));
+    }
+    m
+}
+
 /// n-world: one server, up to three honest clients, an attacker who owns tokens and sees every datagram
 pub fn gen_world(r: &mut Rng) -> Vec<Tree> {
     let mut ops = vec![];
@@ -292,7 +314,7 @@ pub fn gen_world(r: &mut Rng) -> Vec<Tree> {
             }
         }
         let tkey: Vec<u8> = if !secure { zero_key.clone() } else if r.chance(1, 10) { r.bytes(32) } else { key.clone() };
-        let tprot = if r.chance(1, 12) { protocol.wrapping_add(1) } else { protocol };
+        let tprot = if r.chance(1, 12) { *r.pick(&[protocol.wrapping_add(1), protocol ^ (1 << 56), protocol ^ (1 << 63)]) } else { protocol };
         let user = r.bytes(256);
         ops.push(l(vec![n(101u8), n(tk), n(now), n(tprot), n(expire), n(ids[k]), z_tree(timeout), l(addrs), b(&user), b(&tkey)]));
         tk
@@ -412,19 +434,29 @@ pub fn gen_world(r: &mut Rng) -> Vec<Tree> {
             12 => {
                 // fabricated datagrams to the server
                 let from = if r.chance(2, 3) { caddr[k as usize] } else { stranger };
-                let len = *r.pick(&[0usize, 17, 18, 19, 26, 34, 326, 1078, 1078, 1400]);
-                let mut m = if r.chance(1, 2) { vec![0u8; len] } else { r.bytes(len) };
-                if !m.is_empty() {
-                    m[0] = if r.chance(1, 2) { r.below(7) as u8 | ((r.below(16) as u8) << 4) } else { r.below(256) as u8 };
-                }
+                let m = if r.chance(1, 2) {
+                    gen_shaped_datagram(r)
+                } else {
+                    let len = *r.pick(&[0usize, 17, 18, 19, 26, 34, 326, 1078, 1078, 1400]);
+                    let mut m = if r.chance(1, 2) { vec![0u8; len] } else { r.bytes(len) };
+                    if !m.is_empty() {
+                        m[0] = if r.chance(1, 2) { r.below(7) as u8 | ((r.below(16) as u8) << 4) } else { r.below(256) as u8 };
+                    }
+                    m
+                };
                 ops.push(l(vec![n(110u8), addr_tree(&from), b(&m)]));
             }
             13 => {
-                let len = *r.pick(&[0usize, 17, 18, 19, 26, 34, 326, 1400]);
-                let mut m = r.bytes(len);
-                if !m.is_empty() {
-                    m[0] = r.below(7) as u8 | ((r.below(16) as u8) << 4);
-                }
+                let m = if r.chance(1, 2) {
+                    gen_shaped_datagram(r)
+                } else {
+                    let len = *r.pick(&[0usize, 17, 18, 19, 26, 34, 326, 1400]);
+                    let mut m = r.bytes(len);
+                    if !m.is_empty() {
+                        m[0] = r.below(7) as u8 | ((r.below(16) as u8) << 4);
+                    }
+                    m
+                };
                 ops.push(l(vec![n(104u8), n(k), b(&m)]));
             }
             14 => {
